@@ -138,13 +138,23 @@ theorem sciOf_err (d : Nat) (neg : Bool) (m : Nat) (e2 : Int) :
 
 /-- **half a unit of the last digit**: the decimal printed for (and read back from) a double with
 `d` digits after the point is within `½·10^(e10 - d)` of the exact value of the double -/
-theorem decOf_err (d b : Nat) :
-    |Dec10.toRat (decOf d b) - bitsVal b| ≤ 1 / 2 * (10 : ℚ) ^ ((sci d b).e10 - (d : Int)) := by
-  unfold decOf sci bitsVal
+theorem decOf0_err (d b : Nat) :
+    |Dec10.toRat (decOf0 d b) - bitsVal b| ≤ 1 / 2 * (10 : ℚ) ^ ((sci d b).e10 - (d : Int)) := by
+  unfold decOf0 sci bitsVal
   simp only
   have := sciOf_err d (b / 9223372036854775808 % 2 == 1)
     (if (b / 4503599627370496) % 2048 = 0 then b % 4503599627370496 else b % 4503599627370496 + 4503599627370496)
     (if (b / 4503599627370496) % 2048 = 0 then (-1074 : Int) else (((b / 4503599627370496) % 2048 : Nat) : Int) - 1075)
   exact this
+
+/-- half a unit of the last printed digit: the `d`-th after the point, the `(d-1)`-th for a `Wide` value -/
+theorem decOf_err (d b : Nat) :
+    (Wide d b = false → |Dec10.toRat (decOf d b) - bitsVal b| ≤ 1 / 2 * (10 : ℚ) ^ ((sci d b).e10 - (d : Int))) ∧
+    (Wide d b = true →
+      |Dec10.toRat (decOf d b) - bitsVal b| ≤ 1 / 2 * (10 : ℚ) ^ ((sci (d - 1) b).e10 - ((d - 1 : Nat) : Int))) := by
+  unfold decOf
+  constructor
+  · intro h; rw [h]; exact decOf0_err d b
+  · intro h; rw [h]; exact decOf0_err (d - 1) b
 
 end PyYetiVerif.Op4A
